@@ -212,6 +212,21 @@ ExtraCases == <<
   XC(<<Set("vs", Hide(WArr(WAny), ArrE(<<StructE(<< <<"value", I(1)>> >>), StructE(<< <<"value", S(<<115>>)>> >>), StructE(<< <<"value", I(2)>> >>)>>))),
        Set("n", RedE("$+", "int", MapE(TFilterE(IterE(V("vs")), StV_(WInt)), FnE(<<P("s", StV_(WInt))>>, WInt, <<Ret(Field(V("s"), "value"))>>)))),
        Set("m", MutE(WInt, I(0))), For("e", TFilterE(IterE(V("vs")), StV_(WStr)), Block(<<Asg("+=", V("m"), I(1))>>)), TupE(<<V("n"), Deref(V("m"))>>)>>, T2V(3, 1)),
+  \* a function literal called on the spot is a function: a `return' nested inside it ends the literal, not the function around it
+  XC(<<FnDecl("outer", <<P("v", WInt)>>, WInt,
+              <<Set("n", MutE(WInt, I(0))),
+                CallE(FnE(<<>>, WVoid, <<If1(Bin(">", V("v"), I(0)), Block(<<Ret0>>)), Asg("+=", V("n"), I(5))>>), <<>>),
+                Ret(Bin("+", Bin("+", V("v"), I(10)), Deref(V("n"))))>>),
+       TupE(<<CallE(V("outer"), <<H(1)>>), CallE(V("outer"), <<H(0)>>)>>)>>, T2V(11, 15)),
+  XC(<<FnDecl("outer", <<P("v", WInt)>>, WInt,
+              <<Set("r", CallE(FnE(<<>>, WInt, <<Match(V("v"), <<ArmVal(<<I(1)>>, Block(<<Ret(I(100))>>)), ArmOther(Block(<<Unit>>))>>),
+                                                 Loop(Block(<<If1(Bin("==", V("v"), I(2)), Block(<<Ret(I(200))>>)), Break>>)), Ret(I(300))>>), <<>>)),
+                Ret(Bin("+", V("r"), I(1)))>>),
+       TupE(<<CallE(V("outer"), <<H(1)>>), CallE(V("outer"), <<H(2)>>)>>)>>, T2V(101, 201)),
+  XC(<<Set("n", MutE(WInt, I(0))), Set("v", H(1)),
+       CallE(FnE(<<>>, WVoid, <<If1(Bin(">", V("v"), I(0)), Block(<<Ret0>>)), Asg("+=", V("n"), I(5))>>), <<>>),
+       CallE(FnE(<<>>, WVoid, <<For("e", IterE(ArrE(<<H(1), H(2)>>)), Block(<<If1(Bin("==", V("e"), I(2)), Block(<<Ret0>>)), Asg("+=", V("n"), V("e"))>>))>>), <<>>),
+       TupE(<<Deref(V("n")), I(7)>>)>>, T2V(1, 7)),
   \* guards
   XC(<<Set("x", H(0)), Set("r1", Guard("x", 3)), Set("x", H(2)), Set("r2", Guard("x", 3)), TupE(<<V("r1"), V("r2")>>)>>, T2V(3, 5)),
   XC(<<Set("x", H(0)), Set("k", MutE(WInt, I(7))),
